@@ -63,10 +63,17 @@ def sentinel_rule(ctx, rid):
             rr.bad(ctx.finding(rid, m, c, "the Reaper's %s=%s is not the placeholder decided by calc_clean_up_default_res" % (pname, norm(v)), construct="reaper-default-provenance"), "%s default provenance" % m.name)
         else:
             rr.ok("%s: Reaper(%s=...) receives the second result of calc_clean_up_default_res" % (m.name, pname))
-    # the test in _load
+    # the test in _load (the parameter may have been stored on the instance under another name: self.X = <param>)
+    attr_of_param = pname
+    for st_ in ast.walk(init.node):
+        if isinstance(st_, ast.Assign) and isinstance(st_.targets[0], ast.Attribute) and norm(st_.targets[0].value) == "self" and norm(st_.value) == pname:
+            attr_of_param = st_.targets[0].attr
     tests = []
-    for n in walk_shallow(ld.node):
-        if isinstance(n, ast.Compare) and len(n.ops) == 1 and isinstance(n.ops[0], (ast.Is, ast.IsNot, ast.Eq, ast.NotEq)) and norm(n.left).split(".")[-1].lstrip("_") == pname.lstrip("_"):
+    from ..util import callee_func as _cf
+    scan = [ld] + [h for h in {_cf(ctx, ld, c_) for _, c_, _n in all_calls(ctx, ld)} if h is not None and h is not ld and (h.cls is ld.cls and ld.cls is not None or (h.parent is not None and h.parent is ld.parent))]
+    for n in [x for fn_ in scan for x in walk_shallow(fn_.node)]:
+        if isinstance(n, ast.Compare) and len(n.ops) == 1 and isinstance(n.ops[0], (ast.Is, ast.IsNot, ast.Eq, ast.NotEq)) and \
+                norm(n.left).split(".")[-1].lstrip("_") in (pname.lstrip("_"), attr_of_param.lstrip("_")):
             tests.append(n)
     need(len(tests) == 1, "idiom changed: the Reaper's use-default test on %s (found %d)" % (pname, len(tests)))
     t = tests[0]
